@@ -156,6 +156,11 @@ impl Outcome {
     pub fn event_hash(&self) -> u64 {
         let mut h = Fnv::new();
         h.write(format!("{:?}", self.status).as_bytes());
+        if self.status == Status::Timeout {
+            // killed by the watchdog at a wall-clock instant: how far the logs got is not
+            // a simulator decision, so it is not part of the event identity
+            return h.finish();
+        }
         h.write(&self.stdout);
         for e in &self.ent {
             h.write(format!("{}|{}|{}|{}|{}|{}|{}", e.seq, e.task, e.len, e.ok, e.errno, e.bytes, e.src).as_bytes());
